@@ -147,6 +147,9 @@ func init() {
 					emit(fmt.Sprintf("reg.lock %s %s", id, hexs(scid)), lockErrClass(w.svc.VerifLockSwap(id, scid)))
 				case 3:
 					w.svc.RemoveActiveSwap(id)
+					// the requested swap behind this id (if any) is no longer the registered one: a later "the peer
+					// cancels" must not be aimed at whatever is locked under the id afterwards
+					delete(ctxOf, id)
 					emit("reg.remove "+id, "ok")
 				case 4:
 					var xs []string
